@@ -77,4 +77,23 @@ Section NPNum.
   Definition nn_lt_vs (v : vec) (s : t) : list bool := map (fun a => oltb O a s) v.
   Definition nn_any (bs : list bool) : bool := existsb (fun b => b) bs.
   Definition nn_max_v (v : vec) : t := fold_right (fun a m => omax O a m) (o0 O) v.
+  (* ---- index-tabulated idioms (NCA / MLKR): entry (i, j) of an n x m array given as a function of the indices ---- *)
+  Definition nn_entry (A : mat) (i j : nat) : t := nth j (nth i A []) (o0 O).
+  Definition nn_tab (n m : nat) (f : nat -> nat -> t) : mat := map (fun i => map (fun j => f i j) (seq 0 m)) (seq 0 n).
+  (* sklearn pairwise_distances(E, squared=True) *)
+  Definition nn_pairwise_sq (E : mat) : mat :=
+    nn_tab (length E) (length E) (fun i j => vsumsq (vsub (nth i E []) (nth j E []))).
+  (* np.fill_diagonal(D, inf); np.exp(-D - logsumexp(-D, axis=1)[:, None]): the softmax of the negated entries of each row with
+     the diagonal excluded (exp(-inf) = 0); the stabilised form exp(a - log sum exp) = exp(a) / sum exp is C10's first clause *)
+  Definition nn_softmax_neg_offdiag (ex : t -> t) (D : mat) : mat :=
+    let n := length D in
+    let e := fun i j => if Nat.eqb j i then o0 O else ex (oopp O (nn_entry D i j)) in
+    nn_tab n n (fun i j => odiv O (e i j) (vsum (map (e i) (seq 0 n)))).
+  (* P * mask for a boolean array mask *)
+  Definition nn_mulmask (P : mat) (mask : list (list bool)) : mat :=
+    nn_tab (length P) (length P) (fun i j => if nth j (nth i mask []) false then nn_entry P i j else o0 O).
+  (* W + W.T, and np.fill_diagonal(S, v) *)
+  Definition nn_add_m_mt (W : mat) : mat := nn_tab (length W) (length W) (fun i j => oadd O (nn_entry W i j) (nn_entry W j i)).
+  Definition nn_fill_diag (S : mat) (v : vec) : mat :=
+    nn_tab (length S) (length S) (fun i j => if Nat.eqb i j then nth i v (o0 O) else nn_entry S i j).
 End NPNum.
